@@ -211,6 +211,8 @@ def csv_strategy(tier):
         cand = sorted(set(vals + [vals[0] - 1, vals[-1] + 1] + [x + 0.125 for x in vals]))
         k = draw(st.integers(2, 3)) if b in model.WITHIN_TYPES else draw(st.integers(1, 3))
         T = sorted(draw(st.lists(st.sampled_from(cand), min_size=k, max_size=k, unique=True)))
+        if b not in model.WITHIN_TYPES and draw(st.booleans()):
+            T = list(draw(st.permutations(T)))       # one-sided events given in any order: each row is the event of its own threshold
         return {"spec": spec, "metric": draw(st.sampled_from(model.CONT_METRICS)), "bin_type": b, "thresholds": T,
                 "kind": draw(st.sampled_from(["text", "netcdf"])),
                 "axis": draw(st.sampled_from(["threshold", "threshold", "no", "leadtime", "location", "time", "month"]))}
